@@ -272,6 +272,18 @@ func moreIntrinsics() map[string]intrinsic {
 			}
 			return e.mkTime(Int{W: 64, Sg: true, C: 1700000000 * 1e9}, true), true
 		},
+		"time.Date": func(e *Exec, a []Value) (Value, bool) {
+			var v [7]int
+			for i := 0; i < 7; i++ {
+				v[i] = e.concInt(a[i])
+			}
+			t := time.Date(v[0], time.Month(v[1]), v[2], v[3], v[4], v[5], v[6], time.UTC)
+			_, local := a[7].(*Value)
+			if p, ok := a[7].(*Value); ok && p == nil {
+				local = false
+			}
+			return e.mkTime(Int{W: 64, Sg: true, C: t.UnixNano()}, local), true
+		},
 		"time.Unix": func(e *Exec, a []Value) (Value, bool) {
 			sec, nsec := a[0].(Int), a[1].(Int)
 			ns := e.intBin(token.ADD, e.intBin(token.MUL, sec, ci(1e9)), nsec)
